@@ -18,6 +18,14 @@ checks = {
              text="Counts valid / skipped / failing random test cases of real Check runs from the recorded history: exactly N valid cases then OK and nothing more; 'only generated' + FailNow when 10*N skipped; never a vacuous pass when the clock is driven to the deadline; no fresh case after the first falsified one; fail files replayed first."),
  "C10": dict(engine="E1", cat="exploration", ref="§3 C10", technique="deterministic simulation: bracket automaton over the event history of every invocation kind + bubble quiescence for Done()-waiters",
              text="A bracket automaton is fed the global event sequence of failing, minimizing, persisting Checks (hundreds of invocations of all kinds, cut by the clock): context live and unique during the call, cancelled before any cleanup, cleanups exactly once and LIFO incl. ones registered during cleanup and after panics, everything closed before the next invocation; goroutines parked on Done() must all be released (synctest quiescence)."),
+ "C02": dict(engine="E1", cat="exploration", ref="§3 C02", technique="deterministic simulation: enumerated kind x context x position matrix of failure signals inside simulated Check histories; conservation oracle",
+             text="The finite matrix (14 failure kinds x 8 callback contexts in which a *T is available x 7 positions of the falsifying case within the run) is enumerated cell by cell over run indices; around each cell seed, checks, steps and clock are sampled; conservation oracle: a recorded failure signal on any *T rapid handed out implies the TB is failed (and FailNow) when Check returns; skips and passes alone never fail it."),
+ "C04": dict(engine="E1", cat="exploration", ref="§3 C04", technique="deterministic simulation: multi-phase process histories (warm-ups, same seed twice, record -> prune -> replay, fail -> restart -> replay, raw recording via MakeFuzz, cold OS process vs warm) with draw-log equivalence oracles",
+             text="Replay-equivalence over histories: same seed twice in different bubbles; reproduction = failing case; any two invocations started from identical words behave identically; the presented case (replay of the pruned recording) draws what the last recording run drew minus rejected attempts; restart over the same directory replays the same values; the unpruned recording through MakeFuzz reproduces the recorded run; the same tape in a fresh OS process (cold caches) gives the same history as in a process that ran other checks before."),
+ "C06": dict(engine="E1", cat="exploration", ref="§3 C06", technique="deterministic simulation: two-run history fail -> restart -> rerun on a real scratch FS with hostile names/outputs, clock jumps within and between runs",
+             text="Run 1 fails with fail files enabled (hostile test names and logged output, empty bitstreams, clock cuts); exactly one new *.fail file must appear below testdata/rapid/ and be named in the message; after a restart (same second / +1 s / +1 year) the next Check, without flag or with -rapid.failfile on a moved copy, must replay exactly the minimized words before any random case and fail after 0 tests with the same message and values."),
+ "C17": dict(engine="fault_enumeration" and "E1", cat="fault_enumeration", ref="§3 C17", technique="deterministic simulation: fault injection into durable state (seeded + exhaustive truncation/bit-flip corruption of real fail files) with a differential oracle against a clean directory",
+             text="Faults are injected into the only durable state (the fail-file directory) between runs: 18 fault kinds incl. truncation at any offset and single-bit flips (exhaustively enumerated for a fixed reference file in the thorough tier), 1-4 files at once, passing and failing targets; differential oracle against the same run in an empty directory: no crash, same verdict/message/random cases, one log line per unusable file."),
  "C11": dict(engine="E1", cat="exploration", ref="§3 C11", technique="deterministic simulation: blame oracle over multi-case histories on the reused T (selector programs), reach probes for all 49 ordered behaviour pairs",
              text="Selector programs make consecutive test cases take every order of {pass, skip, errorf, errorf-skip, cleanup errorf, cleanup panic, fatal}; the case Check goes on to reproduce must be one that signalled, no signalling case is passed over or lost, never flaky, draw numbering restarts, brackets closed across cases."),
 }
